@@ -14,6 +14,8 @@ CONSTANTS
   CompileMode = "stated"
   Inners <- InnersThorough
   ScopeMode = "stated"
+  Doors <- DoorsApi
+  HookMode = "stated"
 INIT InitNestedThorough
 NEXT Next
 INVARIANTS KeepInv BalanceSheetInv IncomeInv EquityInv TxBalanceInv LayoutInv FilterInv CompileInv SortedInv ExpectInv ScopeInv
